@@ -3,6 +3,7 @@ CONSTANTS Vars <- VarsXYZ
  Kinds <- KindsC16
  LitIdx <- LitsAll
  Imports <- NoImports
+ Configs <- ConfigsNow
  Shape = "free"
  Emit = TRUE
 SPECIFICATION Spec
